@@ -179,7 +179,17 @@ class ThreadsExecutor(DagExecutor):
             concurrent_executor.shutdown(wait=False)
 
 
-def processes_create_futures_func(concurrent_executor, function: Callable[..., Any]):
+def unpickle_and_call_with_retries(f, inp, retries, **kwargs):
+    """Like ``unpickle_and_call``, but retry failed calls (in the worker process)."""
+    if retries != 0:
+        retryer = Retrying(reraise=True, stop=stop_after_attempt(retries + 1))
+        return retryer(unpickle_and_call, f, inp, **kwargs)
+    return unpickle_and_call(f, inp, **kwargs)
+
+
+def processes_create_futures_func(
+    concurrent_executor, function: Callable[..., Any], retries: int = 2
+):
     def create_futures_func(input, **kwargs):
         # Pickle the function, args, and kwargs using cloudpickle.
         # They will be unpickled by unpickle_and_call.
@@ -189,9 +199,10 @@ def processes_create_futures_func(concurrent_executor, function: Callable[..., A
                 i,
                 asyncio.wrap_future(
                     concurrent_executor.submit(
-                        unpickle_and_call,
+                        unpickle_and_call_with_retries,
                         cloudpickle.dumps(function),
                         cloudpickle.dumps(i),
+                        retries,
                         **pickled_kwargs,
                     )
                 ),
@@ -265,7 +276,7 @@ class ProcessesExecutor(DagExecutor):
         )
         try:
             create_futures_func = processes_create_futures_func(
-                concurrent_executor, run_func_processes
+                concurrent_executor, run_func_processes, kwargs.pop("retries", 2)
             )
             await async_map_dag(
                 create_futures_func,
